@@ -673,6 +673,10 @@ class Conv:
                 ops = ({'Gt': 'Lt', 'GtE': 'LtE'}[ops[0]],)
             elif len(ops) == 1 and ops[0] in ('Eq', 'NotEq'):
                 args = sorted(args, key=lambda r: t.fmt(r))
+            if len(ops) == 1 and ops[0] in ('Is', 'IsNot'):
+                r = self._none_test(args, ops[0])
+                if r is not None:
+                    return r
             return t.atom('cmp', tuple(args), extra=ops)
         if isinstance(n, ast.BoolOp):
             return t.atom('bool', tuple(self.expr(v) for v in n.values),
@@ -702,6 +706,45 @@ class Conv:
                 return r
         # lambdas, dict comprehensions ...: opaque, keyed by normalised text
         return t.atom('opaque', (ast.unparse(n),), node=n)
+
+    def _none_test(self, args, op):
+        """`guard(c, None, X) is None` is c when X is something that is never None (a constructor call, a tuple, an
+        allocation ...): the idiom `w = helper(...)  # returns None or a window;  if w is None: continue`"""
+        t = self.tab
+
+        def is_none(x):
+            a = x.single_atom() if isinstance(x, RF) else None
+            return a is not None and t.atoms[a].head == 'const' and t.atoms[a].args == ('None',)
+
+        def never_none(x):
+            if not isinstance(x, RF):
+                return False
+            a = x.single_atom()
+            if a is None:
+                return True          # arithmetic
+            at = t.atoms[a]
+            if at.head in ('tuple', 'dict', 'alloc', 'comp', 'idx'):
+                return True          # (an element or a slice of an array is never None)
+            return at.head == 'call' and at.extra and at.extra[0] in (
+                'fn:slice', 'fn:zeros', 'fn:ones', 'fn:empty', 'fn:array', 'fn:list', 'fn:dict', 'fn:tuple')
+        if is_none(args[1]):
+            x = args[0]
+        elif is_none(args[0]):
+            x = args[1]
+        else:
+            return None
+        a = x.single_atom() if isinstance(x, RF) else None
+        if a is None or t.atoms[a].head != 'guard':
+            return None
+        c, p, q = t.atoms[a].args
+        res = None
+        if is_none(p) and never_none(q):
+            res = c
+        elif is_none(q) and never_none(p):
+            res = t.atom('unop', (c,), extra='Not')
+        if res is None:
+            return None
+        return res if op == 'Is' else t.atom('unop', (res,), extra='Not')
 
     def _comp(self, n):
         """comprehension -> comp(elt, iter_1, (ifs_1), ...) with the bound variables named by binding depth,
@@ -753,7 +796,23 @@ class Conv:
             return Slice(self.expr(s.lower) if s.lower else None,
                          self.expr(s.upper) if s.upper else None,
                          self.expr(s.step) if s.step else None)
-        return self.expr(s)
+        v = self.expr(s)
+        # x[slice(a, b)] is x[a:b]
+        a = v.single_atom()
+        if a is not None:
+            at = self.tab.atoms[a]
+            if at.head == 'call' and at.extra and at.extra[0] == 'fn:slice' and len(at.extra) == 1 and \
+                    1 <= len(at.args) <= 3:
+                def part(x):
+                    xa = x.single_atom()
+                    if xa is not None and self.tab.atoms[xa].head == 'const' and self.tab.atoms[xa].args == ('None',):
+                        return None
+                    return x
+                ar = [part(x) for x in at.args]
+                if len(ar) == 1:
+                    return Slice(None, ar[0], None)
+                return Slice(ar[0], ar[1], ar[2] if len(ar) == 3 else None)
+        return v
 
     def subscript(self, n):
         t = self.tab
@@ -789,8 +848,13 @@ class Conv:
             # element-wise arithmetic commutes with picking one element:
             # (a*b + c)[i] == a[i]*b[i] + c[i]
             i = conv[0]
-            return t.rewrite(base, lambda a, at, nargs: t.atom(
-                'idx', (RF(t, p_atom(a)), i)), _memo=None) if True else None
+
+            def pick(a, at, nargs):
+                # a module-level constant (KBOLTZ, PI, AMU ...) is a scalar: picking an element leaves it alone
+                if at.head == 'name' and ((at.args[0].isupper() and len(at.args[0]) >= 3) or at.args[0] == 'pi'):
+                    return RF(t, p_atom(a))
+                return t.atom('idx', (RF(t, p_atom(a)), i))
+            return t.rewrite(base, pick, _memo=None)
         return t.atom('idx', tuple([base] + conv))
 
     def call_name(self, f):
